@@ -125,7 +125,8 @@ func newAlgoSUT(r *rng, algo, wrap string) *algoSUT {
 		}
 		s.smoothing = smooths[r.intn(len(smooths))]
 		q := c.Queue
-		g, err := limit.NewGradient2Limit(c.Name, c.Initial, c.Ceil, c.Floor, func(int) int { return q }, s.smoothing, []int{5, 10, 50}[r.intn(3)], nil, s.reg)
+		c.Inc = []int{5, 10, 50, 600}[r.intn(4)] // the long RTT window (600 is the library's default)
+		g, err := limit.NewGradient2Limit(c.Name, c.Initial, c.Ceil, c.Floor, func(int) int { return q }, s.smoothing, c.Inc, nil, s.reg)
 		if err != nil {
 			panic(err)
 		}
@@ -489,7 +490,7 @@ func growBound(c algoCfg, smoothing float64, est int) int {
 	case "gradient":
 		return 2*(c.Ceil-est)/c.Queue + 40
 	case "gradient2":
-		return int(float64(c.Ceil-est)/(smoothing*float64(c.Queue))) + 1500
+		return int(float64(c.Ceil-est)/(smoothing*float64(c.Queue))) + 1500 + 4*c.Inc
 	}
 	return 0
 }
@@ -528,12 +529,19 @@ func TestLimitTwin(t *testing.T) {
 		base := int64(1000)
 		clockT := int64(1e9)
 		hl := r.between(5, 80)
+		quiet := k%4 >= 2 && r.chance(1, 2)
+		if quiet {
+			hl = r.between(1, 12)
+		}
 		var endLast, endMoved, endMax int64 // completion time of the latest sample / of the latest one that moved the estimate
 		for i := 0; i < hl; i++ {
 			if b, set := ref.baseline(); set {
 				base = b
 			}
 			x := smp{pickRTT(r, base), pickInflight(r, est), r.chance(1, 8), 0}
+			if quiet {
+				x.inflight, x.drop = 0, false // an idle service: RTTs are measured, the estimate is not touched
+			}
 			if x.rtt > 1<<40 {
 				x.rtt = base * 3
 			}
@@ -592,6 +600,9 @@ func TestLimitTwin(t *testing.T) {
 		cands := []int64{b, b + 1, b + b/8, b + b/4, b + b/2, 2 * b, 3 * b, 4 * b, 8 * b, 20 * b}
 		w.write(J{"ev": "Reset", "trace": k, "cfg": ref.cfg, "obs": J{"est": ref.cfg.Initial, "listeners": 0}})
 		last := smp{0, []int{est, est / 2, est + 5, 0}[r.intn(4)], r.chance(1, 6), 0}
+		if quiet {
+			last.inflight, last.drop = est, false
+		}
 		starts := []int64{0}
 		if k%2 == 1 {
 			// the final sample started around the time of the latest completions (possibly before the last one ended) ...
@@ -827,7 +838,7 @@ func TestFunctionCases(t *testing.T) {
 			// float variant: anywhere inside [n, n+1) the integer part of the step is the same
 			for _, frac := range []float64{0, 0.5, 0.999} {
 				v := lf(float64(c.N) + frac)
-				if int(math.Floor(v+1e-9)) != c.Log10 {
+				if int(math.Floor(v)) != c.Log10 {
 					g["log10float"] = v
 				}
 			}
@@ -838,4 +849,74 @@ func TestFunctionCases(t *testing.T) {
 		}
 	}
 	writeJSON(t, filepath.Join(outDir(t), "function_cases.json"), J{"cases": n, "mismatches": mism})
+}
+
+// TestBoundsGrid pins each floating-point algorithm on its floor (a few hundred overload samples) and on its ceiling
+// (healthy saturated samples) for a grid of smoothing factors x minimum / maximum limits, and logs the range of the
+// reported estimate per grid point: rounding at the clamps depends on the exact (smoothing, bound) pair, which random
+// configurations hit once in a hundred (C04).
+func TestBoundsGrid(t *testing.T) {
+	w := newNdWriter(t, filepath.Join(outDir(t), "grid_trace.ndjson"))
+	defer w.close()
+	step := 5
+	if thorough() {
+		step = 1
+	}
+	k := 0
+	run := func(algo string, floor, ceil int, smoothing float64, l core.Limit) {
+		mn, mx := math.MaxInt64, math.MinInt64
+		panicked := ""
+		note := func() {
+			e := l.EstimatedLimit()
+			if e < mn {
+				mn = e
+			}
+			if e > mx {
+				mx = e
+			}
+		}
+		func() {
+			defer func() {
+				if r := recover(); r != nil {
+					panicked = fmt.Sprint(r)
+				}
+			}()
+			note()
+			l.OnSample(0, 1000, 1, false) // a baseline
+			for i := 0; i < 12; i++ {
+				l.OnSample(0, 1000, l.EstimatedLimit()+1, false)
+				note()
+			}
+			for i := 0; i < 320; i++ { // overload: 1000 x the baseline, saturated, every third one a drop
+				l.OnSample(0, 1000000, l.EstimatedLimit()+1, i%3 == 2)
+				note()
+			}
+			for i := 0; i < 400; i++ { // healthy again, saturated
+				l.OnSample(0, 1000, l.EstimatedLimit()+1, false)
+				note()
+			}
+		}()
+		w.write(J{"ev": "Dwell", "trace": k, "i": 0, "algo": algo, "floor": floor, "ceil": ceil, "smoothing": fmt.Sprint(smoothing), "minest": mn, "maxest": mx,
+			"minok": mn != math.MinInt64 && mn != math.MaxInt64, "panic": panicked != "", "what": panicked})
+		k++
+	}
+	for si := step; si <= 100; si += step {
+		smoothing := float64(si) / 100
+		for _, floor := range []int{1, 2, 3, 5, 6, 7, 12, 13, 20} {
+			for _, ceil := range []int{40, 100} {
+				g2, err := limit.NewGradient2Limit("grid", ceil/2, ceil, floor, func(int) int { return 1 }, smoothing, 600, nil, core.EmptyMetricRegistryInstance)
+				if err != nil {
+					t.Fatal(err)
+				}
+				run("gradient2", floor, ceil, smoothing, g2)
+				g := limit.NewGradientLimitWithRegistry("grid", ceil/2, floor, ceil, smoothing, functions.FixedQueueSizeFunc(1), 2, limit.ProbeDisabled, nil, core.EmptyMetricRegistryInstance)
+				run("gradient", floor, ceil, smoothing, g)
+			}
+		}
+		for _, ceil := range []int{20, 100, 1000} {
+			v := limit.NewVegasLimitWithRegistry("grid", ceil/2, nil, ceil, smoothing, nil, nil, nil, nil, nil, 30, nil, core.EmptyMetricRegistryInstance)
+			run("vegas", 1, ceil, smoothing, v)
+		}
+	}
+	writeJSON(t, filepath.Join(outDir(t), "grid.json"), J{"grid_points": k})
 }
